@@ -1,7 +1,6 @@
-import PytaskModel.PyTree
+import PytaskProofs.Lemmas.PyTree
 open Pytask.PyTree
-#check @String.lt_irrefl
-#check @Int.lt_irrefl
-example (s : String) : ¬ s < s := String.lt_irrefl s
-#print axioms T.rec
-#check @T.rec
+#print axioms flattenUpTo_at_aux
+#print axioms paths_at_aux
+#print axioms unflattenAux_sound
+#print axioms flattenUpTo_isSome
